@@ -57,7 +57,7 @@ def default_shadow(spec):
         return None
     if d[0] == "cfgs":
         return [shadow_of(spec[1], t) for t in d[1]]
-    return shadow_of(spec, d[1])
+    return shadow_of(spec, d[1])          # tree / call / tmpl
 
 
 def shadow_of(spec, t):
@@ -149,6 +149,8 @@ def sh_apply(sh, spec, op):
     sp = spec_nav(spec, path)
     if tgt is None:
         return
+    if kind == "secload":
+        kind, op = "set", ("set", op[1], op[2], op[3])
     if kind in ("set", "reset", "load") and isinstance(tgt, CfgS) and sp and sp[0] == "sub":
         fields = dict(sp[2])
         if kind == "set":
@@ -190,16 +192,35 @@ def rand_tree(rng, depth=0):
     return tuple(rand_tree(rng, depth + 1) for _ in range(rng.randint(1, 2)))
 
 
+# leaf hints: which built-in field class stands behind an FAny of the model (the model stores the value as given,
+# so every hint only ever receives values its class stores unchanged)
+NONE_ONLY = ("challenge", "bytes", "filename", "float")      # option-carrying classes, value stays None
+LEAF_HINTS = ["int", "str", "int", "bare", "intb", "strn", "secure-best", "secure-xor", "secure-aes", "port", "bool", "url",
+              "challenge", "bytes", "filename", "float"]
+
+
+def leaf_value(rng, hint):
+    if hint in ("int", "intb", "bare"):
+        return rng.randint(0, 9)
+    if hint == "port":
+        return rng.randint(1, 9)
+    if hint in ("str", "strn") or hint.startswith("secure"):
+        return rng.choice(["s", "t", "uv"])
+    if hint == "bool":
+        return rng.random() < 0.5
+    if hint == "url":
+        return rng.choice(["http://a.b/", "https://c.d/x"])
+    return None
+
+
 def gen_value(rng, spec, depth=0):
     if spec is None:
         return rand_tree(rng, depth)
     k = spec[0]
     if k == "any":
-        if spec[2] == "int":
-            return rng.randint(0, 9)
-        if spec[2] == "str":
-            return rng.choice(["s", "t", "uv"])
-        return rand_tree(rng, 1)
+        if spec[2] == "bare":
+            return rand_tree(rng, 1)
+        return leaf_value(rng, spec[2])
     if k == "list":
         return [gen_value(rng, spec[1], depth + 1) for _ in range(rng.randint(0 if depth else 1, 2))]
     if k == "dict":
@@ -218,13 +239,19 @@ def gen_dflt(rng, spec_wo_default):
     if r < 0.15:
         return None
     t = gen_value(rng, spec_wo_default)
-    return ("call", t) if r < 0.35 else ("tree", t)
+    if r < 0.25:
+        return ("call", t)
+    if r < 0.35:
+        return ("tmpl", t)       # default=lambda: TEMPLATE -- the callable hands out the same object every time
+    return ("tree", t)
 
 
 def gen_leaf(rng, hint=None):
-    hint = hint or rng.choice(["int", "str", "int", "bare"])
+    hint = hint or rng.choice(LEAF_HINTS)
     r = rng.random()
-    v = rng.randint(0, 9) if hint != "str" else rng.choice(["s", "t"])
+    v = leaf_value(rng, hint)
+    if hint in NONE_ONLY or v is None:
+        return ("any", None, hint)
     if r < 0.2:
         d = None
     elif r < 0.9 or hint != "bare":
@@ -319,6 +346,10 @@ def gen_op(rng, spec, sh):
         if r < 0.8:
             t = gen_value(rng, sp)
             return ("load", path, t)
+        secs = [n for n, f in sp[2] if f[0] == "any" and f[2].startswith("secure")]
+        if secs and r < 0.9:
+            # a document whose secret was written with another method than the field declares
+            return ("secload", path, rng.choice(secs), rng.choice(["s", "t", "uv"]), rng.choice(["xor", "aes"]))
         if sp[1] or r < 0.83:
             return ("set", path, rng.choice(["x1", "x2"]), rand_tree(rng, 1))   # dynamic field (or AttributeError)
         n = rng.choice(names)
@@ -433,6 +464,25 @@ def matrix_schema():
     return ("sub", True, fields, "schema", 0)
 
 
+def template_schema():
+    """callable defaults that hand out ONE template object, and every option-carrying leaf class"""
+    it_s = ("sub", False, [("v", ("list", None, ("tmpl", [[1]]))), ("s", ("any", ("tree", "s"), "secure-xor"))], "ct", 1)
+    fields = [
+        ("ta", ("list", ("dict", None, None), ("tmpl", [{"a": [1]}]))),
+        ("tb", ("dict", ("list", None, None), ("tmpl", {"k": [[1]]}))),
+        ("tc", ("list", None, ("tmpl", [[1], {"x": [2]}]))),
+        ("td", ("dict", None, ("tmpl", {"k": {"z": [1]}}))),
+        ("te", ("list", ("list", ("any", None, "int"), None), ("tmpl", [[1]]))),
+        ("items", ("list", it_s, ("tmpl", [{"v": [[5]]}]))),
+        ("sub", ("sub", False, [("l", ("list", None, ("tmpl", [{"q": [1]}]))), ("p", ("any", ("tree", "t"), "secure-aes"))], "schema", 2)),
+        ("sec", ("any", ("tree", "s"), "secure-best")),
+        ("port", ("any", ("tree", 8), "port")), ("ib", ("any", ("tree", 1), "intb")), ("sn", ("any", ("tree", "s"), "strn")),
+        ("bo", ("any", ("tree", True), "bool")), ("url", ("any", None, "url")), ("ch", ("any", None, "challenge")),
+        ("by", ("any", None, "bytes")), ("fn", ("any", None, "filename")), ("fl", ("any", None, "float")),
+    ]
+    return ("sub", False, fields, "schema", 0)
+
+
 def f46_schema(kind):
     it = ("sub", False, [("n", ("any", ("tree", 0), "int")), ("v", ("list", None, ("tree", [1])))], kind, 1)
     return ("sub", False, [("items", ("list", it, ("cfgs", [{"n": 5}]))), ("z", ("any", ("tree", 1), "int"))], "schema", 0)
@@ -479,6 +529,23 @@ def generate(rng, tier):
         cases.append({"schema": ms, "kind": "matrix", "events": [
             ("build",), ("build",), ("op", 0, ("set", [], "x1", [1, {"a": [2]}])), ("read", 0, rk), ("read", 1, rk),
             ("op", 0, ("set", [("a", "cts"), ("i", 0)], "x2", 5)), ("read", 0, rk), ("build",)]})
+    # templates handed out by callable defaults; secrets written with another method; options of every leaf class
+    ts = template_schema()
+    ttg = []
+    targets(default_shadow(ts), ts, [], ttg)
+    for path, kind, sp in ttg:
+        if kind == "cfg":
+            continue
+        v = ({"dict": {"a": [9]}, "list": [9], "any": 9, "sub": {}}[sp[0]] if sp else [9])
+        mut = ("append", path, v) if kind == "list" else ("dset", path, "k", v)
+        cases.append({"schema": ts, "kind": "matrix", "events": [("build",), ("build",), ("op", 0, mut), ("build",), ("op", 2, mut)]})
+    for n_, p_, m_ in (("sec", [], "xor"), ("sec", [], "aes"), ("p", [("a", "sub")], "xor"), ("s", [("a", "items"), ("i", 0)], "aes")):
+        cases.append({"schema": ts, "kind": "matrix", "events": [
+            ("build",), ("build",), ("op", 0, ("secload", p_, n_, "pw", m_)), ("read", 1, "to_tree"), ("read", 0, "dumps"),
+            ("clone", 0, 1, [], "tree"), ("op", 1, ("set", p_, n_, "uv")), ("build",)]})
+    for rk in READS:
+        cases.append({"schema": ts, "kind": "matrix", "events": [("build",), ("build",), ("read", 0, rk), ("op", 0, ("set", [], "port", 9)),
+                                                             ("read", 1, rk), ("build",), ("read", 2, rk)]})
     # clone: cfg_1.load_tree(cfg_0.to_tree()), then in-place mutations on either side at every depth
     cs = clone_schema()
     ctg = []
@@ -564,7 +631,9 @@ def g_tree(t):
 def g_dflt(d):
     if d is None:
         return "DNone"
-    if d[0] == "tree":
+    if d[0] in ("tree", "tmpl"):
+        # tmpl: the callable returns one template object; ListField/DictField copy what it returns, so for the model
+        # the template is an object the schema holds (observed like a constant default)
         return "(DTree %s)" % g_tree(d[1])
     if d[0] == "call":
         return "(DCall %s)" % g_tree(d[1])
@@ -601,6 +670,8 @@ def g_op(o):
         return "(OpSet %s %s %s)" % (g_path(o[1]), g_str(o[2]), g_tree(o[3]))
     if k == "load":
         return "(OpLoad %s %s)" % (g_path(o[1]), g_tree(o[2]))
+    if k == "secload":
+        return "(OpLoad %s %s)" % (g_path(o[1]), g_tree({o[2]: o[3]}))
     if k == "reset":
         return "(OpReset %s %s)" % (g_path(o[1]), g_str(o[2]))
     if k == "append":
@@ -650,10 +721,24 @@ def _mk(spec, cache):
         if d[0] == "call":
             t = d[1]
             return lambda t=t: copy.deepcopy(t)
+        if d[0] == "tmpl":
+            tmpl = copy.deepcopy(d[1])
+            fn = lambda tmpl=tmpl: tmpl           # noqa: E731  the same object on every call
+            fn.verif_template = tmpl
+            return fn
         raise Broken("default %r needs its item type" % (d,))
     if k == "any":
-        cls = {"int": cc.IntField, "str": cc.StringField, "bare": cc.Field}[spec[2]]
-        return cls(default=dv(spec[1]))
+        h = spec[2]
+        mk = {"int": cc.IntField, "str": cc.StringField, "bare": cc.Field,
+              "intb": lambda **kw: cc.IntField(min=0, max=99, **kw),
+              "strn": lambda **kw: cc.StringField(min_len=1, max_len=5, regex="^[a-z]+$", **kw),
+              "secure-best": lambda **kw: cc.SecureField(method="best", **kw),
+              "secure-xor": lambda **kw: cc.SecureField(method="xor", **kw),
+              "secure-aes": lambda **kw: cc.SecureField(method="aes", **kw),
+              "port": cc.PortField, "bool": cc.BoolField, "url": cc.UrlField,
+              "challenge": lambda **kw: cc.ChallengeField("sha256", **kw), "bytes": lambda **kw: cc.BytesField("hex", **kw),
+              "filename": lambda **kw: cc.FilenameField(exists=False, **kw), "float": lambda **kw: cc.FloatField(min=0.5, max=2.5, **kw)}[h]
+        return mk(default=dv(spec[1]))
     if k == "list":
         if spec[1] is None:
             return cc.ListField(default=dv(spec[2]))
@@ -674,11 +759,34 @@ def _mk(spec, cache):
     s = cc.Schema(dynamic=spec[1])
     for n, f in spec[2]:
         s._add_field(n, _mk(f, cache))
+    # every schema level (root, sub-schema, item schema, config type) has an instance method
+    cc.instance_method(s, IM)(_im_self)
     if spec[3] == "ct":
         s = cc.make_type(s, "CT%d" % sid)
     if sid:
         cache[sid] = s
     return s
+
+
+IM = "im_"
+
+
+def _im_self(cfg):
+    return cfg
+
+
+def _all_configs(v, out):
+    from cincoconfig.core import Config
+    if isinstance(v, Config):
+        out.append(v)
+        for x in v._data.values():
+            _all_configs(x, out)
+    elif isinstance(v, (list, tuple)):
+        for x in v:
+            _all_configs(x, out)
+    elif isinstance(v, dict):
+        for x in v.values():
+            _all_configs(x, out)
 
 
 def _schema_of(obj):
@@ -729,7 +837,8 @@ def _walk_fields(pf, fn):
     sch = _schema_of(pf)
     if sch is not None:
         for name in list(sch._fields):
-            _walk_fields(sch._fields[name], fn)
+            if name != IM:
+                _walk_fields(sch._fields[name], fn)
         return
     fn(pf)
     if isinstance(pf, cc.ListField) and pf.field is not None:
@@ -743,7 +852,9 @@ def _defaults(schema):
 
     def one(f):
         d = f.__dict__.get("_default")
-        if d is not None and not callable(d):
+        if callable(d) and hasattr(d, "verif_template"):
+            out.append(d.verif_template)          # the object a template-returning callable hands out
+        elif d is not None and not callable(d):
             out.append(d)
     _walk_fields(schema, one)
     return out
@@ -753,7 +864,7 @@ def _names(pf):
     import cincoconfig as cc
     sch = _schema_of(pf)
     if sch is not None:
-        return [(k, _names(f)) for k, f in sch._fields.items()]
+        return [(k, _names(f)) for k, f in sch._fields.items() if k != IM]
     if isinstance(pf, cc.ListField) and pf.field is not None:
         return _names(pf.field)
     if isinstance(pf, cc.DictField) and pf._use_proxy:
@@ -780,7 +891,8 @@ def _options(schema):
             for f in list(sch._fields.values()):
                 visit(f)
             return
-        out.append((type(pf).__name__, id(pf), sorted((k, scal(v)) for k, v in pf.__dict__.items() if k != "_default")))
+        # every attribute of the field object, public and private (containers by identity): nothing is a cache
+        out.append((type(pf).__name__, id(pf), sorted((k, scal(v)) for k, v in pf.__dict__.items())))
         import cincoconfig as cc
         if isinstance(pf, cc.ListField) and pf.field is not None:
             visit(pf.field)
@@ -837,6 +949,14 @@ def _apply(cfg, o):
     from cincoconfig.core import Config
     k = o[0]
     tgt = _nav(cfg, o[1])
+    if k == "secload":
+        import base64
+        if not isinstance(tgt, Config):
+            raise LookupError("not a configuration")
+        with tgt._keyfile as ctx:
+            sv = ctx.encrypt(o[3], method=o[4])
+        tgt.load_tree({o[2]: {"method": sv.method, "ciphertext": base64.b64encode(sv.ciphertext).decode()}})
+        return
     if k in ("set", "load", "reset"):
         if not isinstance(tgt, Config):
             raise LookupError("not a configuration")
@@ -1038,6 +1158,18 @@ def impl(c):
             if _plain(cc.asdict(cj)) != dicts[j]:
                 viol.append("event %d (%s on configuration %d) changed asdict() of configuration %d" % (n, e[0], target, j))
                 dicts[j] = _plain(cc.asdict(cj))
+        for j, cj in enumerate(cfgs):
+            allc = []
+            _all_configs(cj, allc)
+            for sub_ in allc:
+                try:
+                    got = getattr(sub_, IM)()
+                except Exception as ex:  # noqa
+                    got = ex
+                if got is not sub_:
+                    viol.append("event %d: an instance method of configuration %d (%s) ran against %s"
+                                % (n, j, "root" if sub_ is cj else "a nested configuration",
+                                   "another configuration object" if not isinstance(got, Exception) else "nothing: " + type(got).__name__))
         d1 = [_snap(d) for d in _defaults(schema)]
         if d1 != dfl0:
             viol.append("event %d (%s on configuration %d) changed a declared default of the schema" % (n, e[0], target))
@@ -1117,6 +1249,8 @@ def tags(c, obs):
             return
         d = dflt_of(sp)
         t.add("%s:%s:%s" % (k, "typed" if k != "any" and sp[1] is not None else "plain", d[0] if d else "none"))
+        if k == "any":
+            t.add("leaf:" + sp[2])
         if k in ("list", "dict") and sp[1] is not None:
             kinds(sp[1], "item-")
     kinds(c["schema"], "")
